@@ -202,11 +202,11 @@ def last_is_fun(ast):
 def c02(tier):
     chk = Check('C02', tier)
     chk.rule = ('every construct x context x {top level, top-level block, function body, method body} (+ all ordered construct pairs in the thorough tier), '
-                'seeded random programs incl. ill-typed ones, and the corpus are compiled by the real compiler; TLC decodes the bytes, checks WellFormed '
+                'seeded random programs incl. ill-typed ones, the corpus, programs at the format limits (255 parameters, 300 locals/labels) and just beyond them (which may be refused) are compiled by the real compiler; TLC decodes the bytes, checks WellFormed '
                 'and explores every CFG path x stack depth of every method (FMLVerifier). distinct_nontrivial = distinct compiled methods explored.')
     exe = build('debug')
     wd = scratch('c02')
-    progs = pool.corpus() + pool.construct_family(pairs=(tier == 'thorough'), limit=tier_sizes(tier, 900, None)) + \
+    progs = pool.corpus() + pool.over_limit_programs() + pool.construct_family(pairs=(tier == 'thorough'), limit=tier_sizes(tier, 900, None)) + \
         pool.random_programs(tier_sizes(tier, 150, 4000), base_seed=seed() * 104729 + 5, fault_rate=0.15)
     outs = compile_pool(exe, progs, wd, ['ast', 'prog'], 'c02')
     recs = []
